@@ -7,11 +7,14 @@
    (b) whole evaluations threaded through the surviving state (Eql/Reeval.v): history-independent on the conjunctive
        fragment INCLUDING rule queries with a refinement (selector memory forgotten at the start of an evaluation, a3cd335);
        the Exists node's de-duplication memory (Eql/ReevalExists.v): isolated because it is per evaluation;
-   (c) whole evaluations interleaved step by step: NOT proved -- Eql/DomainCacheSched.v is an executable prediction that
-       the harness compares with the implementation on enumerated schedules. *)
+   (c) whole evaluations interleaved step by step: the coroutine machine of Eql/DomainCacheSched.v (the executable prediction the
+       harness compares with the implementation on enumerated schedules) is PROVED isolating for every schedule when the
+       evaluated query objects are pairwise distinct (C03_sched_isolated); it is tied to the whole-evaluation model by
+       C03_sched_sequential_is_hist; refuted for one rule-query object evaluated twice at the same time (open finding C03-b2). *)
 From Coq Require Import List ZArith Bool.
 From Krrood Require Import Eql.DomainCacheSpec Eql.DomainCache Eql.DomainCacheProofs
-                           Eql.ReevalSpec Eql.Reeval Eql.ReevalProofs Eql.ReevalExists.
+                           Eql.ReevalSpec Eql.Reeval Eql.ReevalProofs Eql.ReevalExists
+                           Eql.DomainCacheSched Eql.DomainCacheSchedProofs.
 Import ListNotations.
 Open Scope Z_scope.
 
@@ -75,6 +78,72 @@ Theorem C03_refuted_shared_exists_memory :
   s_hs (srun [1; 2] lockstep) = [(SLive [], [1; 2]); (SDone, [1])] /\ dedup [1; 2] = [1; 2] /\
   map l_tr (lrun [1; 2] lockstep []) = [[1; 2]; [1; 2]].
 Proof. exact refuted_shared_exists_memory. Qed.
+
+(* ================= (c) whole evaluations interleaved: the coroutine machine ================= *)
+(* [irun] drives the machine ([istep]: shared domain caches with the HashedIterable handles of 1997e3c, suspended evaluations as
+   continuation trees, selector node per query object) through a schedule and records per evaluation the rows it delivered,
+   whether it was closed, whether it ended by itself (StopIteration without having been closed), whether it failed.
+   For every world (explicit domains, repeated elements allowed), every list of query objects of the fragment -- rule-free or
+   with a refinement rule --, every assignment of evaluations to PAIRWISE DISTINCT objects, and every schedule of next()/close()
+   steps of any length (a warm-up history is just a prefix of the schedule with further evaluations):
+   no evaluation fails, each delivered a prefix of its isolated rows, and exactly those if it ended by itself. *)
+Theorem C03_sched_isolated : forall (W : world) (A : attrs) (qobjs : list query) (itobj : list nat) (ops : list iop)
+                                    (S' : isys rstate) (T' : list itrace),
+  NoDup itobj -> Forall (fun o => o < length qobjs)%nat itobj ->
+  irun rstate (RLive 0 []) rstep ops (isys1 W A qobjs itobj) (map (fun _ => trace0) itobj) = (S', T') ->
+  forall i t, nth_error T' i = Some t ->
+  exists o, nth_error itobj i = Some o /\
+            t_failed t = false /\
+            is_prefix_rows (t_rows t) (iso_rows (map dedup W) A (nth o qobjs q_none)) /\
+            (t_stopped t = true -> t_rows t = iso_rows (map dedup W) A (nth o qobjs q_none)).
+Proof. exact sched_isolated. Qed.
+
+(* the form used for rule-free queries (every evaluation its own object; also the same rule-free query object several times) *)
+Theorem C03_sched_isolated_rule_free_objects : forall (W : world) (A : attrs) (qs : list query) (ops : list iop)
+                                                      (S' : isys rstate) (T' : list itrace),
+  irun rstate (RLive 0 []) rstep ops (isys0 W A qs) (map (fun _ => trace0) (seq 0 (length qs))) = (S', T') ->
+  forall i t, nth_error T' i = Some t ->
+  exists q, nth_error qs i = Some q /\
+            t_failed t = false /\
+            is_prefix_rows (t_rows t) (iso_rows (map dedup W) A q) /\
+            (t_stopped t = true -> t_rows t = iso_rows (map dedup W) A q).
+Proof. exact sched_isolated0. Qed.
+
+(* the CPS / list-monad bridge behind it: what a compiled query still has to deliver when its domain iterators simply walk the
+   de-duplicated domains is its isolated row list *)
+Theorem C03_compile_ideal : forall (W' : world) (A : attrs) (F : nat),
+  (forall x, (F > length (domW W' x))%nat) ->
+  forall q, ideal W' (compile A F q) [] ([], []) = (iso_rows W' A q, true).
+Proof. exact compile_ideal. Qed.
+
+(* the two models cannot drift apart: whatever the schedule, if every evaluation ended by itself the machine delivered what the
+   whole-evaluation model [hist] computes; and the sequential schedule (each evaluation stepped to its end in turn) does end them all *)
+Theorem C03_sched_exhausted_is_hist : forall (W : world) (A : attrs) (qobjs : list query) (itobj : list nat) (ops : list iop)
+                                             (S' : isys rstate) (T' : list itrace),
+  NoDup itobj -> Forall (fun o => o < length qobjs)%nat itobj ->
+  irun rstate (RLive 0 []) rstep ops (isys1 W A qobjs itobj) (map (fun _ => trace0) itobj) = (S', T') ->
+  Forall (fun t => t_stopped t = true) T' ->
+  map t_rows T' = hist A (cold W) (queries_of qobjs itobj).
+Proof. exact sched_exhausted_is_hist. Qed.
+
+Theorem C03_sched_sequential_is_hist : forall (W : world) (A : attrs) (qobjs : list query) (itobj : list nat)
+                                              (S' : isys rstate) (T' : list itrace),
+  NoDup itobj -> Forall (fun o => o < length qobjs)%nat itobj ->
+  irun rstate (RLive 0 []) rstep (seq_sched W A qobjs O itobj) (isys1 W A qobjs itobj) (map (fun _ => trace0) itobj) = (S', T') ->
+  map t_rows T' = hist A (cold W) (queries_of qobjs itobj).
+Proof. exact sched_sequential_is_hist. Qed.
+
+(* OPEN (finding C03-b2): ONE rule-query object evaluated twice at the same time -- the hypothesis NoDup of C03_sched_isolated is
+   necessary: both evaluations end by themselves having lost a row; two distinct objects of the same query are fine *)
+Theorem C03_refuted_rule_object_twice :
+  map (fun t => (t_rows t, t_stopped t))
+      (snd (irun rstate (RLive 0 []) rstep sched_x (isys1 W_x A_x [q_rule_x] [0; 0]%nat) [trace0; trace0]))
+  = [([[0; 11]; [1; 13]], true); ([[0; 11]; [1; 12]], true)] /\
+  iso_rows (map dedup W_x) A_x q_rule_x = [[0; 11]; [1; 12]; [1; 13]] /\
+  map (fun t => (t_rows t, t_stopped t))
+      (snd (irun rstate (RLive 0 []) rstep sched_x (isys1 W_x A_x [q_rule_x; q_rule_x] [0; 1]%nat) [trace0; trace0]))
+  = [([[0; 11]; [1; 12]; [1; 13]], false); ([[0; 11]; [1; 12]; [1; 13]], true)].
+Proof. exact refuted_rule_object_twice. Qed.
 
 (* ================= regression: the PREVIOUS iterator (before 1997e3c) =================
    yield from self.values.values(); for v in self.iterable: self.values[v.id_] = v; yield v          -- model [hstep] *)
@@ -145,6 +214,12 @@ Print Assumptions C03_cold_is_good.
 Print Assumptions C03_iter_full_is_exhaust.
 Print Assumptions C03_exists_local_isolated.
 Print Assumptions C03_refuted_shared_exists_memory.
+Print Assumptions C03_sched_isolated.
+Print Assumptions C03_sched_isolated_rule_free_objects.
+Print Assumptions C03_compile_ideal.
+Print Assumptions C03_sched_exhausted_is_hist.
+Print Assumptions C03_sched_sequential_is_hist.
+Print Assumptions C03_refuted_rule_object_twice.
 Print Assumptions C03_old_cache_sequential.
 Print Assumptions C03_old_cache_warm_any_schedule.
 Print Assumptions C03_refuted_interleave.
